@@ -17,6 +17,14 @@ def main():
             text = pre + cyc * k + suf
             best = None
             for _ in range(2):
+                # CPU-time limit for THIS measurement, enforced by the kernel (SIGXCPU ends the process even inside one C-level
+                # regex match) and independent of how loaded the machine is - unlike a wall-clock timeout of the parent
+                try:
+                    import resource
+                    hard = resource.getrlimit(resource.RLIMIT_CPU)[1]
+                    resource.setrlimit(resource.RLIMIT_CPU, (int(time.process_time() + 2 * j['cap'] + 3), hard))
+                except Exception:  # noqa
+                    pass
                 t0 = time.process_time()
                 for _x in lexer.tokenize(text):
                     pass
